@@ -195,6 +195,12 @@ def gen_can_desc(rng, mode):
         rng.shuffle(ids)
         fields = [(fn, ids[k], t) for k, (fn, _, t) in enumerate(fields)]
         d.structs.append((f"S{s}", fields))
+        # field parameters (unit, range), different from field to field: whatever a back end makes of them belongs to the field
+        # with that id, wherever it is declared
+        for k, (fn, _, t) in enumerate(fields):
+            if rng.random() < 0.25:
+                d.params[(f"S{s}", fn)] = rng.choice([f" | range({k}.0, {k + 10}.5)", f' | unit("u{k}") | range(-{k + 1}.0, {2 * k + 1}.0)',
+                                                      f' | unit("u{k}")'])
     # bindings
     for name, fs in d.structs:
         if rng.random() < 0.85 or name == d.structs[-1][0]:
@@ -525,7 +531,7 @@ def check_codec_twins(rep, rng, tier):
     jobs = []
     meta = []
     for _ in range(n):
-        d = gen.gen_codec_desc(rng, max_structs=3, max_fields=5, depth=2)
+        d = gen.gen_codec_desc(rng, max_structs=3, max_fields=5, depth=2, dup_ids=False)  # twins: ids must fix the order
         tw = d.permuted(rng)
         name = d.structs[-1][0]
         py, mv = gen.gen_value(rng, d, ("struct", name), long_ok=False)
@@ -562,7 +568,7 @@ def check_describe_twins(rep, rng, tier):
     n = 150 if tier == "quick" else 2500
     jobs, meta = [], []
     for _ in range(n):
-        d = gen.gen_codec_desc(rng, max_structs=3, max_fields=5, depth=2)
+        d = gen.gen_codec_desc(rng, max_structs=3, max_fields=5, depth=2, dup_ids=False)  # twins: ids must fix the order
         tw = d.permuted(rng)
         name = d.structs[-1][0]
         jobs += [{"text": d.text(), "struct": name}, {"text": tw.text(), "struct": name}]
